@@ -73,9 +73,14 @@ func (x *xEnv) start(id int, key, name string, wait time.Duration) {
 }
 
 func (x *xEnv) rate(id int, ctx context.Context, key, name string, d time.Duration) {
+	x.rateOpt(id, ExclusiveRateLimit(ctx, d), key, name)
+}
+
+// rateOpt: a call through a given (possibly shared) ExclusiveRateLimit option value.
+func (x *xEnv) rateOpt(id int, rl ExclusiveOption, key, name string) {
 	defer x.wg.Done()
 	vrt.Log("call", id, "call", key, name)
-	o := <-x.e.CallWithOptions(ExclusiveKey(key), ExclusiveValue(xWork(name, key)), ExclusiveRateLimit(ctx, d),
+	o := <-x.e.CallWithOptions(ExclusiveKey(key), ExclusiveValue(xWork(name, key)), rl,
 		ExclusiveWrapper(func(w WorkFunc) WorkFunc {
 			// outermost wrapper: the work function's return (after the rate-limit gap) is the end of the execution
 			return func(resolve func(interface{}, error)) {
@@ -300,4 +305,25 @@ func init() {
 	vrt.Register(&vrt.Scenario{Name: "X-rate-cancel", Props: []string{"C09:overlap,key-", "C10", "C11:race", "C12:goroutine-leak"},
 		Quick: 3, Thorough: 4, Desc: "a rate-limited call whose context is cancelled at any point of its work, and a plain Call on the same key",
 		Opts: vrt.Options{Delay: true}, Run: xRateCancel, Check: exclusiveCheck})
+}
+
+// X-rate-shared: ONE ExclusiveRateLimit option value used for calls on two keys (an option is a
+// value; nothing says it may be applied only once): every call is answered with the result of a work
+// function submitted for ITS key, the executions of one key never overlap, both keys are released.
+func xRateShared() {
+	x := &xEnv{e: new(Exclusive)}
+	ctx, cancel := context.WithCancel(context.Background())
+	defer cancel()
+	rl := ExclusiveRateLimit(ctx, 10*time.Millisecond)
+	x.wg.Add(3)
+	go x.rateOpt(1, rl, "A", "a1")
+	go x.rateOpt(2, rl, "A", "a2")
+	go x.rateOpt(3, rl, "B", "b1")
+	x.finish("A", "B")
+}
+
+func init() {
+	vrt.Register(&vrt.Scenario{Name: "X-rate-shared", Props: []string{"C09:overlap,key-", "C10", "C11:race", "C12:goroutine-leak"},
+		Quick: 2, Thorough: 3, Desc: "one ExclusiveRateLimit option value shared by two calls on key A and one on key B",
+		Opts: vrt.Options{Delay: true}, Run: xRateShared, Check: exclusiveCheck})
 }
